@@ -36,3 +36,42 @@ def enum_variants(rel_path, enum_name):
 
 def variant_index(rel_path, enum_name):
     return {n: i for i, n in enumerate(enum_variants(rel_path, enum_name))}
+
+
+def struct_fields(rel_path, struct_name):
+    """Field names of `struct <name> { ... }` in a repo source file, in declaration order (= MIR field indices)."""
+    src = open(os.path.join(C.REPO, rel_path)).read()
+    m = re.search(r"\bstruct %s\b[^{;]*\{" % re.escape(struct_name), src)
+    if not m:
+        raise RuntimeError("struct %s not found in %s" % (struct_name, rel_path))
+    i, depth, body = m.end(), 1, ""
+    while depth > 0:
+        ch = src[i]
+        if ch in "{(<[":
+            depth += 1
+        elif ch in "})>]":
+            if not (ch == ">" and src[i - 1] == "-"):
+                depth -= 1
+        if depth > 0:
+            body += ch
+        i += 1
+    body = re.sub(r"//[^\n]*", "", body)
+    body = re.sub(r"#\[[^\]]*\]", "", body)
+    names, d, cur = [], 0, ""
+    for ch in body:
+        if ch in "(<[{":
+            d += 1
+        elif ch in ")>]}":
+            d -= 1
+        if ch == "," and d == 0:
+            names.append(cur)
+            cur = ""
+        else:
+            cur += ch
+    names.append(cur)
+    out = []
+    for n in names:
+        mm = re.match(r"\s*(?:pub(?:\([^)]*\))?\s+)?(\w+)\s*:", n)
+        if mm:
+            out.append(mm.group(1))
+    return out
